@@ -116,6 +116,7 @@ def _replay(mod, pid, path, scratch):
 
 
 def _check(mod, pid, tier, seed, scratch, t0):
+    shutil.rmtree(os.path.join(VERIF, "replays", pid), ignore_errors=True)   # replay files belong to one run
     specs = mod.shards(tier, seed)
     for s in specs:
         s.setdefault("seed", seed)
